@@ -89,13 +89,15 @@ theorem no_leak_document (e : BEnv) (he : e.isNCName [] = false) (Γ : Ctx) (cfg
   | tree t => exact (parseRootU_clean e he Γ cfg c t).not_leaked py
   | syntaxError => intro h; cases h
   | codecError s => intro h; cases h
+  | includeError => intro h; cases h
 
 /-- every tokenizer outcome is inhabited and maps where it should -/
 example :
     parseDocument Witness.env Witness.ctx {} "Root".toList (.tree Witness.docMissing) = .error (.parser "Failed to create") ∧
     parseDocument Witness.env Witness.ctx {} "Root".toList .syntaxError = .error (.parser "syntax error") ∧
-    parseDocument Witness.env Witness.ctx {} "Root".toList (.codecError "LookupError") = .error (.parser "codec error") :=
-  ⟨rfl, rfl, rfl⟩
+    parseDocument Witness.env Witness.ctx {} "Root".toList (.codecError "LookupError") = .error (.parser "codec error") ∧
+    parseDocument Witness.env Witness.ctx {} "Root".toList .includeError = .error (.parser "xinclude error") :=
+  ⟨rfl, rfl, rfl, rfl⟩
 
 /-- not well-formed ⇒ rejected, with `ParserError` -/
 theorem malformed_rejected (e : BEnv) (Γ : Ctx) (cfg : ParserConfig) (c : ClassId) :
